@@ -527,12 +527,8 @@ Fixpoint mark_tags (t : table) (hid : id) (tags marked : list Z) : list Z * bool
     else mark_tags t hid r marked
   end.
 
-(* Listener.clientClear *)
-Definition client_clear (w : cworld) (i : Z) : cworld :=
-  match w_tbl w !! i with
-  | Some _ => CW (w_tbl w) (delete i (w_route w)) (w_subs w)
-  | None => w
-  end.
+(* Listener.clientClear (w_route only ever has keys of the table: client_set) *)
+Definition client_clear (w : cworld) (i : Z) : cworld := CW (w_tbl w) (delete i (w_route w)) (w_subs w).
 (* Listener.clientSet(i, the send queue of the host under key hk) *)
 Definition client_set (hk : Z) (w : cworld) (i : Z) : cworld :=
   match w_tbl w !! i, w_route w !! i with
